@@ -2,7 +2,7 @@
    Each Props/Cxx.v requires only its own file; this one is the whole layer (make Xlate/Tie.vo). *)
 From TarsV Require Xlate.TarsRequestEquiv Xlate.CodecEquiv Xlate.ParseEquiv Xlate.BSWLEquiv Xlate.CheckActiveEquiv
   Xlate.ReaderEquiv Xlate.ReaderSliceEquiv Xlate.ReqIdEquiv Xlate.SelectEquiv Xlate.ConHashEquiv Xlate.FloatEquiv Xlate.TimeWheelEquiv Xlate.SWRREquiv Xlate.RecvEquiv
-  Xlate.InvokeEquiv.
+  Xlate.InvokeEquiv Xlate.ReplyEquiv.
 
 Print Assumptions TarsRequestEquiv.tr_TarsRequest_equiv.
 Print Assumptions CodecEquiv.tr_WriteHead_equiv.
@@ -52,3 +52,5 @@ Print Assumptions InvokeEquiv.invoke_base_equiv.
 Print Assumptions InvokeEquiv.invoke_error_equiv.
 Print Assumptions InvokeEquiv.invoke_timeout_equiv.
 Print Assumptions InvokeEquiv.invoke_identity_of_source.
+Print Assumptions ReplyEquiv.tr_doInvoke_reply_equiv.
+Print Assumptions ReplyEquiv.tr_doInvoke_reply_kind.
